@@ -20,7 +20,15 @@ func c08Specs(tier string) []*Spec {
 		specs = append(specs, &Spec{ID: "C08", Name: name, Cfg: cfg, Keys: ks, Vals: bs("x", ""), MaxDepth: depth, MaxMaint: 1,
 			Alphabet: a.Ops, Oracles: []Oracle{oracleIter(b)}})
 	}
+	// handles of committed versions that are kept and used across later commits (an ImmutableTree is a snapshot)
+	addHold := func(name string, cfg Cfg, depth int) {
+		a := Alpha{Writes: true, Save: true, Rollback: true, DelTo: true, LVFO: true, Hold: true, MaxVersions: 3}
+		specs = append(specs, &Spec{ID: "C08", Name: name, Cfg: cfg, Keys: bs("a", "b"), Vals: bs("x", "y"), MaxDepth: depth, MaxMaint: 1,
+			Alphabet: a.Ops, Oracles: []Oracle{oracleIter(small)}})
+	}
 	if tier == "quick" {
+		addHold("hold/default/d5", defaultCfg, 5)
+		addHold("hold/nofast/d5", Cfg{Fast: false}, 5)
 		addEmpty("emptykey/default/d4", defaultCfg, 4)
 		addEmpty("emptykey/nofast/d4", Cfg{Fast: false}, 4)
 		add("default/d4", defaultCfg, 4, 1, bounds)
@@ -31,6 +39,9 @@ func c08Specs(tier string) []*Spec {
 		add("leveldb/d3", Cfg{Fast: true, Backend: "leveldb"}, 3, 1, small)
 		return specs
 	}
+	addHold("hold/default/d7", defaultCfg, 7)
+	addHold("hold/nofast/d6", Cfg{Fast: false}, 6)
+	addHold("hold/cache1000/d6", Cfg{Fast: true, Cache: 1000}, 6)
 	addEmpty("emptykey/default/d6", defaultCfg, 6)
 	addEmpty("emptykey/nofast/d5", Cfg{Fast: false}, 5)
 	add("default/d6", defaultCfg, 6, 2, bounds)
